@@ -7,6 +7,7 @@
 
 mod gen;
 mod model;
+mod probe;
 mod props;
 mod reprs;
 mod runner;
@@ -32,6 +33,7 @@ macro_rules! dispatch {
             "C10" => $f::<props::c10::C10>($($args),*),
             "C11" => $f::<props::c11::C11>($($args),*),
             "C12" => $f::<props::c12::C12>($($args),*),
+            "C13" => $f::<props::c13::C13>($($args),*),
             "C14" => $f::<props::c14::C14>($($args),*),
             "C15" => $f::<props::c15::C15>($($args),*),
             "C16" => $f::<props::c16::C16>($($args),*),
